@@ -3,7 +3,7 @@
 # usage: confirm_seed.sh <Cxx> <k>
 export GOFLAGS=-mod=mod GOPROXY=off GOSUMDB=off GOTOOLCHAIN=local
 P=$1; K=$2; BASE=${3:-230ed8a}
-SRC=/tmp/seed-$P-out/$K
+SRC=${SEEDROOT:-/tmp/seed}-$P-out/$K
 W=/tmp/confirm-$P-$K
 LOG=$SRC/confirm.log
 rm -rf $W; git -C /repo worktree prune; git -C /repo worktree add -q --detach $W $BASE >/dev/null 2>&1 || { echo "worktree failed" > $LOG; exit 1; }
